@@ -12,6 +12,14 @@ TB = ("Trusted: Coq 8.16.1 kernel (coqc; coqchk in the thorough tier), vm_comput
       "on every run); extraction with ExtrOcamlBasic only + ocaml/runner.ml; Go correspondence harness injected with "
       "go test -overlay (tag verif); ")
 
+CACHE_IDS = {"C01", "C02", "C03", "C04", "C05", "C06", "C07", "C08", "C09", "C13", "C14", "C15", "C17"}
+SKEL = (" The critical sections, channel operations and step order the machine assumes of cache.go / store.go / ttl.go / "
+        "policy.go / ring.go are additionally tied to the code on every run by the synchronisation-skeleton comparison "
+        "(tools/lockshape, a go/ast extraction, against lib/lockshape.expected): a syntactic fingerprint that flags split "
+        "or weakened critical sections and reordered steps, not a proof of atomicity. Real-concurrency harnesses (stress, "
+        "store-level race) are search only: a clean run of them proves nothing.")
+
+
 def load_claims():
     d = os.path.join(ROOT, "lib", "claims")
     out = {}
@@ -41,7 +49,7 @@ def main():
                 "replay_cmd_template": "./check %s --replay {path}" % pid,
                 "engine": "coq-proof+correspondence",
                 "level_claimed": {"category": "proof", "text": c["text"], "design_ref": "DESIGN.md " + c["ref"]},
-                "level_note": c["note"],
+                "level_note": c["note"] + (SKEL if pid in CACHE_IDS else ""),
                 "technique": c["technique"],
             })
         else:
